@@ -37,6 +37,12 @@ CHECKS = {
         text="Decides the structural clause C06.b: every returned Jacobian-typed matrix is completely written on every path, scratch blocks are read only after they were written, constant blocks lie inside the matrix, noalias operands are disjoint. Table (smallAdj = structure constants) and jet (Taylor arm meets closed form) clauses are added as they are built.",
         note="NOT decided: rjacinv*rjac = I, Adj(exp t) = ljac*rjacinv, the series identity, accuracy above the switch-over (numerical).",
     ),
+    "C07": dict(
+        level="proof", design="3/C07",
+        technique="static analysis: abstract interpretation of the table-building code over affine forms in Q (R-TABLE) on the instantiated AST, then exact rational algebra on the extracted tables",
+        text="Everything in this property is a statement about literal tables and linear layouts and asks for exactness. The check extracts, with an affine-form abstract interpreter over the resolved AST, the tables that Generator(i), hat(), Vee, smallAdj() and InnerWeights() build for SO2, SE2, SO3, SE3, SE_2_3, SGal3, Rn and a 4-element Bundle, and proves over Q: generators are constant and linearly independent, every out-of-range index probe raises invalid_argument, hat = sum c_i E_i cell by cell, Vee(hat c) = c, smallAdj = structure constants of hat/vee, antisymmetry, Jacobi, bracket = smallAdj*b, inner = a^T W b, W = Frobenius Gram and SPD, weightedNorm = sqrt(squaredWeightedNorm). An idiom the interpreter does not know yields exit 2, never a pass.",
+        note="Trusted: clang 14 AST/constant folding; the transfer functions for the Eigen idioms listed in engine/symeval.py. Quick: R3 + one Bundle layout; thorough adds R1, R9 and two more layouts.",
+    ),
 }
 
 NOT_APPLICABLE = {
